@@ -539,7 +539,8 @@ theorem tetraInside_of_bary_pos (v0 v1 v2 v3 X : V3 ℝ) (hd : 0 < tdet v0 v1 v2
   simp only [tetraInside, le_real, n, ofNat_real, Nat.cast_zero, Nat.cast_one, Bool.and_eq_true, decide_eq_true_eq]
   have e : ∀ a : ℝ, a / det3 (v1 - v0) (v2 - v0) (v3 - v0) ≤ 1 ↔ a ≤ det3 (v1 - v0) (v2 - v0) (v3 - v0) := by
     intro a; rw [div_le_one hd]
-  refine ⟨⟨⟨⟨⟨⟨?_, ?_⟩, ?_⟩, ?_⟩, ?_⟩, ?_⟩, ?_⟩
+  refine ⟨⟨⟨⟨⟨⟨⟨?_, ?_⟩, ?_⟩, ?_⟩, ?_⟩, ?_⟩, ?_⟩, ?_⟩
+  · simp [hd.ne']
   · exact (div_pos h1 hd).le
   · exact (div_pos h2 hd).le
   · exact (div_pos h3 hd).le
